@@ -1,9 +1,15 @@
 SPECIFICATION FairSpec
 CONSTANTS
- NProd = 2
- NCons = 2
+ NProd = 1
+ NCons = 1
  PerProd = 2
- NWait = 2
-INVARIANTS NoPhantomWake
+ NTimed = 0
+ NWait = 1
+ NTimedW = 1
+ Poller = FALSE
+ AtomicWait = TRUE
+ Interrupts = TRUE
+ EintrReturns = FALSE
+INVARIANTS NoPhantomWake Conservation MutexInv TimeoutOnlyUnsignalled
 PROPERTIES AllConsumed AllWoken
 CHECK_DEADLOCK FALSE
